@@ -13,6 +13,8 @@
  * Notes: `call lock`/`ret lock`/`call unlock`/`ret unlock` are about M;
  * `call wait`/`ret wait`; `call signal <holdsM>`/`ret signal`; `call broadcast <holdsM>`/
  * `ret broadcast`; `cs enter`/`cs exit` bracket the critical section after a wait. */
+/* crowds: more simultaneous waiters than 127 / 255 */
+#define VH_MAXF 400
 #include "rtcommon.h"
 #include "fiber_cond.h"
 #include "fiber_mutex.h"
